@@ -735,6 +735,165 @@ for _p in ("C07", "C08", "C09", "C10"):
     globals()["observe_" + _p] = observe_decoder
 
 
+# ------------------------------------------------------------------------------------------------ AutoDecoder (C12, C15)
+DECODER_NAMES = ["Aidon_frame", "Kaifa_frame", "Kamstrup_frame", "P1", "Aidon_notification_body", "Kaifa_notification_body", "Kamstrup_notification_body"]
+
+
+class Timeout(Exception):
+    pass
+
+
+def with_alarm(seconds, fn):
+    import signal
+
+    def on_alarm(signum, frame):
+        raise Timeout()
+    old = signal.signal(signal.SIGALRM, on_alarm)
+    signal.setitimer(signal.ITIMER_REAL, seconds)
+    try:
+        return fn()
+    finally:
+        signal.setitimer(signal.ITIMER_REAL, 0)
+        signal.signal(signal.SIGALRM, old)
+
+
+def make_message(kind, data):
+    from han import common, dlde, hdlc
+    if kind == "payload":
+        return data
+    if kind == "dlms":
+        return common.DlmsMessage(data)
+    if kind == "readout":
+        return dlde.DataReadout(data)
+    r = hdlc.HdlcFrameReader(False)
+    fr = r.read(data)
+    return fr[0]
+
+
+def autodecode(w):
+    """w: data (hex), prev (None|0..6), via ('payload'|'dlms'|'hdlc'|'readout') -> (result, previous_success_decoder)"""
+    from han import autodecoder
+    d = autodecoder.AutoDecoder()
+    d._AutoDecoder__previous_success = w.get("prev")
+    data = bytes.fromhex(w["data"])
+    via = w.get("via", "payload")
+    if via == "payload":
+        res = d.decode_message_payload(data)
+    else:
+        res = d.decode_message(make_message(via, data))
+    return res, d.previous_success_decoder
+
+
+def judge_C15(w):
+    import datetime
+    try:
+        res, _ = with_alarm(w.get("seconds", 5), lambda: autodecode(w))
+    except Timeout:
+        return {"signature": "nontermination", "detail": f"no result within {w.get('seconds', 5)} s for the {len(w['data']) // 2}-octet input {w['data'][:120]} (prev={w.get('prev')}, via={w.get('via', 'payload')})"}
+    except Exception as e:
+        return {"signature": "exception:" + exc_signature(e), "detail": f"{type(e).__name__}: {e}; input {w['data'][:160]} prev={w.get('prev')} via={w.get('via', 'payload')}"}
+    if res is not None and not isinstance(res, dict):
+        return {"signature": "not-dict-or-none", "detail": repr(res)[:200]}
+    return None
+
+
+def observe_C15(w):
+    try:
+        res, name = with_alarm(5, lambda: autodecode(w))
+    except Timeout:
+        return "timeout"
+    except Exception as e:
+        return "exc:" + type(e).__name__
+    return [None if res is None else sorted(res), name]
+
+
+def judge_C12(w):
+    """own-decoder claim: a genuine message is decoded by its meter's own decoder (fresh decoder or same-meter history)"""
+    from . import cosem_ref as CR
+    try:
+        res, name = autodecode(w)
+    except Exception as e:
+        return {"signature": "exception:" + exc_signature(e), "detail": repr(e)}
+    if name != w["own"]:
+        return {"signature": "foreign-decoder-selected", "detail": f"genuine {w['own']} message decoded by {name}: {w['data'][:120]} (prev={w.get('prev')})"}
+    if w.get("meter"):
+        data = bytes.fromhex(w["data"])
+        try:
+            exp = CR.expected(w["meter"], list(data), w["form"])
+        except CR.Malformed:
+            return None
+        r = CR.compare_concrete(exp, res)
+        if r:
+            return {"signature": r[0], "detail": f"AutoDecoder result: {r[1]}"}
+    return None
+
+
+def observe_C12(w):
+    try:
+        res, name = autodecode(w)
+    except Exception as e:
+        return "exc:" + type(e).__name__
+    return [None if res is None else sorted(res), name]
+
+
+def c12_lemma_run(w):
+    """concrete stub decoders with the given accept vector on the real AutoDecoder"""
+    import construct
+    from han import autodecoder as AD, dlde, common, hdlc
+    orig, orig_p1 = list(AD.AutoDecoder.payload_decoder_functions), dlde.decode_p1_readout
+    names = [n for n, _ in orig]
+
+    def mk(i):
+        def dec(payload):
+            if w["acc"][i]:
+                return {"decoder": i}
+            raise (ValueError("no") if w["verr"][i] else construct.ConstructError("no"))
+        return dec
+    try:
+        AD.AutoDecoder.payload_decoder_functions = [(names[i], mk(i)) for i in range(len(names))]
+        if "P1" in names:
+            dlde.decode_p1_readout = mk(names.index("P1"))
+        d = AD.AutoDecoder()
+        d._AutoDecoder__previous_success = None if w["prev"] < 0 else w["prev"]
+        via = w["via"]
+        if via == "payload":
+            r = d.decode_message_payload(b"x")
+        elif via == "dlms":
+            r = d.decode_message(common.DlmsMessage(b"xxxxxx"))
+        elif via == "hdlc":
+            fr = hdlc.HdlcFrame()
+            for o in bytes.fromhex("a00a0321137a24e67e7e")[:10]:
+                fr.append(o)
+            r = d.decode_message(fr) if fr.payload else None
+        else:
+            r = d.decode_message(dlde.DataReadout(b"/LGF5E360\r\n1-0:1.8.0(1*kWh)\r\n!\r\n"))
+        return r, d.previous_success_decoder, names
+    finally:
+        AD.AutoDecoder.payload_decoder_functions = orig
+        dlde.decode_p1_readout = orig_p1
+
+
+def observe_C12_lemma(w):
+    r, name, _ = c12_lemma_run(w)
+    return [r, name]
+
+
+def judge_C12_lemma(w):
+    try:
+        r, name, names = c12_lemma_run(w)
+    except Exception as e:
+        return {"signature": "exception:" + exc_signature(e), "detail": repr(e)}
+    n = len(names)
+    start = 0 if w["prev"] < 0 else w["prev"]
+    first = next((i for i in [(start + k) % n for k in range(n)] if w["acc"][i]), None)
+    if first is None:
+        if r is not None or name != (None if w["prev"] < 0 else names[w["prev"]]):
+            return {"signature": "selection-lemma", "detail": f"nobody accepts but result={r} remembered={name} (prev={w['prev']}, via={w['via']})"}
+    elif r != {"decoder": first} or name != names[first]:
+        return {"signature": "selection-lemma", "detail": f"accept={w['acc']} prev={w['prev']} via={w['via']}: result={r} remembered={name}, expected decoder {first}"}
+    return None
+
+
 # ------------------------------------------------------------------------------------------------ dispatch
 def observe(prop, w):
     fn = globals().get("observe_" + prop + ("_" + w["sub"] if w.get("sub") else ""))
